@@ -35,6 +35,22 @@ class Shape:
         FmtLib().install(self.it)
         install_bits(self.it)
         self.st = State()
+        # callees that live in third-party crates are not interpreted: they are recorded ("ext", name) and
+        # return an unknown value, so that a deviation from the reviewed shape shows up as an unexpected call
+        transparent = {"json_syntax", "jsvroots", "core", "alloc", "std", "locspan", "decoded_char"}
+
+        def ext_pred(inst):
+            return inst["crate"] not in transparent
+
+        def ext_fn(it, st, inst, args, call):
+            st.emit("ext", tuple(args), tuple(deref(it, st, a, 1) if isinstance(a, Ref) else a for a in args), inst["name"])
+            rt = ret_ty(it, call)
+            t = self.P.types[rt] if rt is not None else None
+            if t is not None and t["k"] == "tuple" and not t["fields"]:
+                return UNIT
+            return Top(rt, "ext:" + inst["path"])
+
+        self.it.summaries.append((ext_pred, ext_fn))
 
     def cut(self, rx, tag, ret=None, field="name", when=None):
         """Calls to instances matching rx are recorded as (tag, args, snapshots of referenced args)."""
